@@ -669,6 +669,8 @@ def c03(tier):
     scs = []
     for i in range(n):
         s, v = gen_reader.scenario("p%05d" % i, gen_reader.rand_archive(rnd))
+        if i % 3 == 0:      # the source returns short reads: nothing the reader reports (entries, comment, offsets) may depend on it
+            s["under"] = rnd.choice([{"max": 1}, {"max": 3}, {"max": 7}, {"max": 100}, {"list": [1, 5, 2]}, {"list": [4096, 1]}])
         scs.append(s)
     for i in range(n // 8):
         kind = ["plain", "dd", "z64", "fcomment"][i % 4]
@@ -1059,6 +1061,30 @@ def c04(tier):
                 reads.append(dict(reads[1], api=rnd.choice(["read_to_end", "copy", "read_exact"]), under={}))
         scs.append({"sc": "f-%s-%d-%s-%d.%d" % (name, i, site, pos, bit), "hex": flip(b, pos, bit).hex(), "reads": reads,
                     "note": "bit %d of byte %d (%s of entry %d)" % (bit, pos, site, i)})
+    # the declared CRC wiped to 0x00000000 (a value some readers treat as "no checksum"), alone and together with data damage
+    for name, b, v, pws in seeds:
+        for i, e in enumerate(v["entries"]):
+            if e["csize"] == 0 or len(e["data"]) == 0:
+                continue
+            for where, base in (("c", e["chs"] + 16), ("l", e["hdr"] + 14)):
+                for also_data in (False, True):
+                    x = bytearray(b)
+                    x[base:base + 4] = b"\x00\x00\x00\x00"
+                    if bytes(x) == b and not also_data:
+                        continue
+                    if also_data:
+                        x[e["dstart"] + e["csize"] // 2] ^= 0x5a
+                    exp = {"len": len(e["data"]), "crc": crc_hex(e["data"])}
+                    dm_seek = "data" if also_data else ("crc" if where == "c" else "none")
+                    dm_stream = "data" if also_data else ("crc" if where == "l" else "none")
+                    q = {"i": i, "via": "seek", "bufs": rnd.choice(SCHED_BUFS), "under": {}, "exp": exp, "dmg": dm_seek}
+                    if e["enc"] is not None:
+                        q["pw"] = pws[0].hex()
+                        q["pwkind"] = "right"
+                    reads = [q]
+                    if streamable(v, i):
+                        reads.append({"i": i, "via": "stream", "bufs": rnd.choice(SCHED_BUFS), "under": {}, "exp": exp, "dmg": dm_stream})
+                    scs.append({"sc": "z-%s-%d-%s-%d" % (name, i, where, also_data), "hex": bytes(x).hex(), "reads": reads})
     # multi-byte damage, payloads swapped between entries, truncated payloads
     for n in range(60 if tier == "quick" else 2000):
         name, b, v, pws = rnd.choice(seeds)
@@ -1114,6 +1140,27 @@ def crc_with_high_byte(v, rnd, n=24):
             return d
 
 
+
+def crc_forge(prefix, target):
+    """prefix + 4 bytes whose CRC-32 is exactly `target` (backward table walk; verified with zlib)"""
+    import zlib
+    T = []
+    for i in range(256):
+        c = i
+        for _ in range(8):
+            c = (0xEDB88320 ^ (c >> 1)) if c & 1 else (c >> 1)
+        T.append(c)
+    want = target ^ 0xFFFFFFFF
+    cur = (zlib.crc32(prefix) & 0xFFFFFFFF) ^ 0xFFFFFFFF
+    new = want
+    for _ in range(4):
+        j = next(k for k in range(256) if T[k] >> 24 == new >> 24)
+        new = (((new ^ T[j]) << 8) & 0xFFFFFFFF) | j
+    patch = (new ^ cur).to_bytes(4, "little")
+    out = prefix + patch
+    assert zlib.crc32(out) & 0xFFFFFFFF == target
+    return out
+
 def zc_check(pw, hdr12, want):
     import refzip
     z = refzip.ZipCrypto(pw)
@@ -1127,6 +1174,7 @@ def zc_check(pw, hdr12, want):
 
 def c15(tier):
     import refzip
+    import struct
     rep = Report("C15", tier)
     wd = vlib.workdir("C15", tier)
     vlib.build_harness()
@@ -1146,6 +1194,13 @@ def c15(tier):
                     data = bytes(rnd.randrange(256) for _ in range(20))
                     e = {"name": b"t%03d" % v, "method": rnd.choice([0, 8]), "data": data, "enc": ("zc", pw), "dd": "sig32",
                          "time": (v << 8) | rnd.randrange(256)}
+                    if k % 3 == 0:      # an Info-ZIP extended timestamp (UTC, hours away from the DOS time) must not change which byte is checked
+                        ts = struct.pack("<BI", 1, 946684800 + 3600 * (v % 24) + 60 * v)
+                        e["cextra"] = [(0x5455, ts)]
+                        e["lextra"] = [(0x5455, ts)]
+                elif v == 0 and g == 0:
+                    # a payload whose CRC-32 is exactly 0x00000000: the checksum is a checksum, not "absent"
+                    e = {"name": b"c000-zero-crc", "method": 0, "data": crc_forge(b"zero crc payload %d " % rnd.randrange(1000), 0), "enc": ("zc", pw)}
                 else:
                     e = {"name": b"c%03d" % v, "method": rnd.choice([0, 8]), "data": crc_with_high_byte(v, rnd), "enc": ("zc", pw)}
                 ents.append(e)
@@ -1307,6 +1362,33 @@ def c16(tier):
                     es.append({"sc": "t-ae%d-s%d-m%d-l%d-crc-%d" % (ver, st, m, ln, pos), "hex": flip(b, pos, rnd.randrange(8)).hex(),
                                "reads": [{"i": 0, "via": "seek", "bufs": rnd.choice(SCHED_BUFS), "under": {}, "exp": exp,
                                           "pw": b"pw".hex(), "pwkind": "right", "dmg": "crc"}]})
+    # a tampered compressed stream that ENDS EARLY (the final-block bit of the first of two stored deflate blocks is flipped): the
+    # decompressor stops with part of the ciphertext unread - 1, 5, 10, 11, 100 ... bytes beyond what its input buffer holds -
+    # and the authentication code must still be compared (EntryRead!DecoderEndsEarly)
+    import struct
+    def two_blocks(total):
+        first = bytes(range(100))
+        rest = total - (5 + 100) - 5
+        second = bytes((i * 13 + 7) & 0xFF for i in range(rest))
+        return (b"\x00" + struct.pack("<HH", 100, 100 ^ 0xFFFF) + first + b"\x01" + struct.pack("<HH", rest, rest ^ 0xFFFF) + second), first + second
+    sizes = [300, 8192 + 1, 8192 + 10, 32768 + 1, 32768 + 5, 32768 + 10, 32768 + 11, 32768 + 100, 65536 + 3]
+    if tier == "quick":
+        sizes = [300, 8192 + 10, 32768 + 1, 32768 + 10, 32768 + 11]
+    for total in sizes:
+        for ver in (1, 2):
+            raw, plain = two_blocks(total)
+            ents = [{"name": b"early-end", "method": 8, "data": plain, "raw": raw, "enc": ("aes", ver, rnd.choice([1, 2, 3]), b"pw")},
+                    {"name": b"neighbour", "method": 0, "data": b"untouched"}]
+            b, view = refzip.build({"entries": ents})
+            e = view["entries"][0]
+            a, z = e["regions"]["ct"]
+            exp = {"len": len(plain), "crc": crc_hex(plain)}
+            es2 = []
+            for bf in ([4096], [65536], [7]):
+                es2.append({"i": 0, "via": "seek", "bufs": bf, "under": {}, "exp": exp, "pw": b"pw".hex(), "pwkind": "right", "dmg": "data"})
+            es.append({"sc": "early-ae%d-%d" % (ver, total), "hex": flip(b, e["dstart"] + a, 0).hex(), "reads": es2})
+            es.append({"sc": "early-ok-ae%d-%d" % (ver, total), "hex": b.hex(),
+                       "reads": [{"i": 0, "via": "seek", "bufs": [4096], "under": {}, "exp": exp, "pw": b"pw".hex(), "pwkind": "right"}]})
     run_eread_scenarios(rep, wd, es, "aes-reads")
     return rep.finish("model_checking",
                       "EntryRead!MacAtEnd/TamperDetected/EofIntegrity (AE-1 CRC enforced, AE-2 ignored) model-checked with the no_mac/no_crc spec "
@@ -1942,7 +2024,7 @@ def c06(tier):
     scs = []
     per = 400
     for i in range(0, len(names), per):
-        ents = [{"name": nm, "utf8": True, "method": 0, "data": b""} for nm in names[i:i + per]]
+        ents = [{"name": nm, "utf8": not (k % 3 == 0 and all(c < 0x80 for c in nm)), "method": 0, "data": b""} for k, nm in enumerate(names[i:i + per])]
         b, v = refzip.build({"entries": ents})
         scs.append({"sc": "pa%06d" % i, "hex": b.hex(), "expect": [], "paths": True, "max_entries": 0})
     progs = os.path.join(wd, "paths-scenarios.ndjson")
@@ -1957,7 +2039,8 @@ def c06(tier):
     # the streaming metadata's twins on a sample
     sscs = []
     for i in range(0, len(names), per * (8 if tier == "quick" else 1)):
-        ents = [{"name": nm, "utf8": True, "method": 0, "data": b"x"} for nm in names[i:i + 60]]
+        # (ASCII names also without the UTF-8 flag: the CP437 branch of the readers sees them too)
+        ents = [{"name": nm, "utf8": not (k % 2 == 0 and all(c < 0x80 for c in nm)), "method": 0, "data": b"x"} for k, nm in enumerate(names[i:i + 60])]
         b, v = refzip.build({"entries": ents})
         sscs.append({"sc": "ps%06d" % i, "hex": b.hex(), "plan": [0] * len(ents), "pcrc": ["00000000"] * len(ents), "visitor": True})
     progs = os.path.join(wd, "spaths-scenarios.ndjson")
@@ -2102,7 +2185,10 @@ def c18(tier):
         ws = [(rnd.randrange(65536), rnd.randrange(65536)) for _ in range(24)] + [(0, 0), (0xFFFF, 0xFFFF), (0x21, 0)]
         cases.append({"sc": "arc-words%04d" % i, "kind": "archive_words", "w": [list(w) for w in ws]})
         ents = [{"name": b"t%d" % k, "method": rnd.choice([0, 8]), "data": b"x" * k, "date": rnd.randrange(65536), "time": rnd.randrange(65536),
-                 "system": rnd.choice([3, 3, 0, 7]), "eattr": rnd.choice([0o100644 << 16, 0, 0x20, 0o40755 << 16])} for k in range(12)]
+                 "system": rnd.choice([3, 3, 0, 7]), "eattr": rnd.choice([0o100644 << 16, 0, 0x20, 0o40755 << 16]),
+                 # (a more precise timestamp in an extra field does not change what the DOS words say)
+                 "cextra": [(0x5455, b"\x01" + (946684800 + 86400 * k + 3600 * 5).to_bytes(4, "little"))] if k % 3 == 0 else [],
+                 "lextra": [(0x5455, b"\x03" + (946684800 + 86400 * k).to_bytes(4, "little") * 2)] if k % 3 == 0 else []} for k in range(12)]
         b, v = refzip.build({"entries": ents})
         cases.append({"sc": "foreign%04d" % i, "kind": "foreign", "hex": b.hex()})
     progs = os.path.join(wd, "dostime-cases.ndjson")
